@@ -1,6 +1,7 @@
 import PyCraft.Model.VersionProfiles
 import PyCraft.Lemmas.Versions
 import PyCraft.Props.C08
+import PyCraft.Lemmas.SessionWire
 /-!
 Helper lemmas for `Props/VersionProfiles.lean`: the kernel evaluation of the per-version checks on
 the live tables, and what a passed check means for one supported version (`play_row`,
@@ -342,5 +343,301 @@ theorem login_row {v : Nat} (hv : v ∈ liveTables.supportedProtocols) :
     · have := stepUp_rows rank (fun x : LoginRow => x.v) (fun r => r.pr.successKind == 1) 707
         loginRows s3 loginRows_sorted r hmem
       rw [e3, ← hrv]; exact this
+
+/-! ### the declared layouts, version by version -/
+
+theorem mem_before (b v : Nat) : ∀ K : List Nat, v ∈ before K b ↔ K.idxOf v < K.idxOf b
+  | [] => by simp [before]
+  | a :: K => by
+    have ih := mem_before b v K
+    unfold before at ih ⊢
+    rw [List.takeWhile_cons, idxOf_cons_ite, idxOf_cons_ite]
+    by_cases hab : a = b
+    · subst hab; simp
+    · by_cases hav : a = v
+      · subst hav; simp [hab]
+      · have hva : ¬ v = a := fun h => hav h.symm
+        simp [hab, hav, hva, ih]
+
+theorem before_append_since (K : List Nat) (b : Nat) : before K b ++ since K b = K :=
+  List.takeWhile_append_dropWhile
+
+theorem mem_since_of (K : List Nat) (b v : Nat) (hv : v ∈ K) (h : ¬ K.idxOf v < K.idxOf b) :
+    v ∈ since K b := by
+  rw [← before_append_since K b, List.mem_append] at hv
+  rcases hv with hv | hv
+  · exact absurd ((mem_before b v K).mp hv) h
+  · exact hv
+
+theorem idxOf_since (K : List Nat) (hK : K.Nodup) (b x : Nat) (hx : x ∈ since K b) :
+    K.idxOf x = (before K b).length + (since K b).idxOf x := by
+  have hK' := hK
+  rw [← before_append_since K b, List.nodup_append] at hK'
+  have hnot : x ∉ before K b := fun h => hK'.2.2 x h x hx rfl
+  conv => lhs; rw [← before_append_since K b]
+  rw [List.idxOf_append, if_neg hnot, Nat.add_comm]
+
+theorem layoutAt_lookup {tab : List Gen.LayoutRow} {cls : String}
+    {vars : List (Option Layout × List Nat)} (h : tab.lookup cls = some vars) (v : Nat) :
+    layoutAt tab cls v =
+      (match vars.find? (fun x => x.2.contains v) with
+       | some x => x.1
+       | none => none) := by
+  unfold layoutAt; rw [h]; rfl
+
+theorem layoutAt_one {tab : List Gen.LayoutRow} {cls : String} {L : Option Layout} {V : List Nat}
+    (h : tab.lookup cls = some [(L, V)]) (v : Nat) :
+    layoutAt tab cls v = if v ∈ V then L else none := by
+  rw [layoutAt_lookup h]
+  by_cases hv : v ∈ V <;> simp [List.find?, hv]
+
+theorem layoutAt_two {tab : List Gen.LayoutRow} {cls : String} {L1 L2 : Option Layout}
+    {K : List Nat} {b : Nat}
+    (h : tab.lookup cls = some [(L1, before K b), (L2, since K b)]) {v : Nat} (hv : v ∈ K) :
+    layoutAt tab cls v = if K.idxOf b ≤ K.idxOf v then L2 else L1 := by
+  rw [layoutAt_lookup h]
+  by_cases hlt : K.idxOf v < K.idxOf b
+  · have h1 : v ∈ before K b := (mem_before b v K).mpr hlt
+    have : ¬ K.idxOf b ≤ K.idxOf v := by omega
+    simp [List.find?, h1, this]
+  · have h1 : v ∉ before K b := fun hm => hlt ((mem_before b v K).mp hm)
+    have h2 : v ∈ since K b := mem_since_of K b v hv hlt
+    have : K.idxOf b ≤ K.idxOf v := by omega
+    simp [List.find?, h1, h2, this]
+
+theorem layoutAt_three {tab : List Gen.LayoutRow} {cls : String} {L1 L2 L3 : Option Layout}
+    {K : List Nat} {a b : Nat}
+    (h : tab.lookup cls =
+      some [(L1, before K a), (L2, before (since K a) b), (L3, since (since K a) b)])
+    (hK : K.Nodup) (hb : b ∈ since K a) {v : Nat} (hv : v ∈ K) :
+    layoutAt tab cls v =
+      if K.idxOf b ≤ K.idxOf v ∧ K.idxOf a ≤ K.idxOf v then L3
+      else if K.idxOf a ≤ K.idxOf v then L2 else L1 := by
+  rw [layoutAt_lookup h]
+  by_cases hlt : K.idxOf v < K.idxOf a
+  · have h1 : v ∈ before K a := (mem_before a v K).mpr hlt
+    have : ¬ K.idxOf a ≤ K.idxOf v := by omega
+    simp [List.find?, h1, this]
+  · have h1 : v ∉ before K a := fun hm => hlt ((mem_before a v K).mp hm)
+    have h2 : v ∈ since K a := mem_since_of K a v hv hlt
+    have ha : K.idxOf a ≤ K.idxOf v := by omega
+    have ev := idxOf_since K hK a v h2
+    have eb := idxOf_since K hK a b hb
+    by_cases hlt2 : (since K a).idxOf v < (since K a).idxOf b
+    · have h3 : v ∈ before (since K a) b := (mem_before b v _).mpr hlt2
+      have : ¬ K.idxOf b ≤ K.idxOf v := by omega
+      simp [List.find?, h1, h3, ha, this]
+    · have h3 : v ∉ before (since K a) b := fun hm => hlt2 ((mem_before b v _).mp hm)
+      have h4 : v ∈ since (since K a) b := mem_since_of _ b v h2 hlt2
+      have : K.idxOf b ≤ K.idxOf v := by omega
+      simp [List.find?, h1, h3, h4, ha, this]
+
+theorem since_mem_of (K : List Nat) (b v : Nat) (hv : v ∈ since K b) : v ∈ K := by
+  rw [← before_append_since K b]; exact List.mem_append_right _ hv
+
+
+theorem mem_since_iff (K : List Nat) (hK : K.Nodup) (b v : Nat) (hv : v ∈ K) :
+    v ∈ since K b ↔ K.idxOf b ≤ K.idxOf v := by
+  constructor
+  · intro hs
+    have hK' := hK
+    rw [← before_append_since K b, List.nodup_append] at hK'
+    have hnot : v ∉ before K b := fun h => hK'.2.2 v h v hs rfl
+    have : ¬ K.idxOf v < K.idxOf b := fun hlt => hnot ((mem_before b v K).mpr hlt)
+    omega
+  · intro h; exact mem_since_of K b v hv (by omega)
+
+theorem rank_107_le_755 : rank 107 ≤ rank 755 := by
+  unfold rank; decide +kernel
+
+theorem mem_755_since_107 : 755 ∈ since liveTables.knownProtocols 107 := by
+  have h : (since liveTables.knownProtocols 107).contains 755 = true := by decide +kernel
+  simpa using h
+
+/-- `get_definition(ctx)` of the classes the play and login models hard-code, for EVERY known
+version `v`, in terms of the chronological rank of `v`. -/
+theorem layouts_at {v : Nat} (hv : v ∈ liveTables.knownProtocols) :
+    layoutAt Gen.cbPlayLayouts "KeepAlivePacket" v =
+      some [("keep_alive_id", if rank 339 ≤ rank v then .int .i64 else .varint)] ∧
+    layoutAt Gen.sbPlayLayouts "KeepAlivePacket" v =
+      some [("keep_alive_id", if rank 339 ≤ rank v then .int .i64 else .varint)] ∧
+    layoutAt Gen.cbPlayLayouts "PlayerPositionAndLookPacket" v =
+      some (posBase ++ (if rank 107 ≤ rank v then [("teleport_id", .varint)] else []) ++
+        (if rank 755 ≤ rank v then [("dismount_vehicle", .bool)] else [])) ∧
+    layoutAt Gen.cbPlayLayouts "DisconnectPacket" v = some discLayout ∧
+    layoutAt Gen.sbPlayLayouts "PositionAndLookPacket" v = some echoLayout ∧
+    layoutAt Gen.sbPlayLayouts "TeleportConfirmPacket" v =
+      (if rank 107 ≤ rank v then some tcLayout else none) ∧
+    layoutAt Gen.cbLoginLayouts "DisconnectPacket" v = some discLayout ∧
+    layoutAt Gen.cbLoginLayouts "EncryptionRequestPacket" v = some encReqLayout ∧
+    layoutAt Gen.cbLoginLayouts "SetCompressionPacket" v = some setCompLayout ∧
+    layoutAt Gen.cbLoginLayouts "PluginRequestPacket" v =
+      (if rank 385 ≤ rank v then some plugReqLayout else none) ∧
+    layoutAt Gen.cbLoginLayouts "LoginSuccessPacket" v =
+      some [("UUID", if rank 707 ≤ rank v then .uuid else .string), ("Username", .string)] ∧
+    layoutAt Gen.sbLoginLayouts "LoginStartPacket" v = some loginStartLayout ∧
+    layoutAt Gen.sbLoginLayouts "EncryptionResponsePacket" v = some encRespLayout ∧
+    layoutAt Gen.sbLoginLayouts "PluginResponsePacket" v = none := by
+  have h := layout_variants_ok
+  simp only [layoutVariantsOk, Bool.and_eq_true, beq_iff_eq] at h
+  obtain ⟨⟨⟨⟨⟨⟨⟨⟨⟨⟨⟨⟨⟨h1, h2⟩, h3⟩, h4⟩, h5⟩, h6⟩, h7⟩, h8⟩, h9⟩, h10⟩, h11⟩, h12⟩, h13⟩, h14⟩ := h
+  have hK := known_nodup
+  have m (b : Nat) : v ∈ since liveTables.knownProtocols b ↔ rank b ≤ rank v :=
+    mem_since_iff _ hK b v hv
+  refine ⟨?_, ?_, ?_, ?_, ?_, ?_, ?_, ?_, ?_, ?_, ?_, ?_, ?_, ?_⟩
+  · rw [layoutAt_two h1 hv]; unfold rank; split <;> rfl
+  · rw [layoutAt_two h2 hv]; unfold rank; split <;> rfl
+  · rw [layoutAt_three h3 hK mem_755_since_107 hv]
+    have := rank_107_le_755
+    unfold rank at this ⊢
+    by_cases ha : liveTables.knownProtocols.idxOf 107 ≤ liveTables.knownProtocols.idxOf v <;>
+      by_cases hb : liveTables.knownProtocols.idxOf 755 ≤ liveTables.knownProtocols.idxOf v <;>
+      simp [ha, hb]
+    omega
+  · rw [layoutAt_one h4, if_pos hv]
+  · rw [layoutAt_one h5, if_pos hv]
+  · rw [layoutAt_one h6]; simp only [m]
+  · rw [layoutAt_one h7, if_pos hv]
+  · rw [layoutAt_one h8, if_pos hv]
+  · rw [layoutAt_one h9, if_pos hv]
+  · rw [layoutAt_one h10]; simp only [m]
+  · rw [layoutAt_two h11 hv]; unfold rank; split <;> rfl
+  · rw [layoutAt_one h12, if_pos hv]
+  · rw [layoutAt_one h13, if_pos hv]
+  · rw [layoutAt_one h14]; split <;> rfl
+
+/-! ### rows come from the tables; consequences of `rowOk` -/
+
+theorem mem_zip3 {α β γ : Type} : ∀ (as : List α) (bs : List β) (cs : List γ) (t : α × β × γ),
+    t ∈ zip3 as bs cs → t.1 ∈ as ∧ t.2.1 ∈ bs ∧ t.2.2 ∈ cs
+  | [], _, _, _, h => by simp [zip3] at h
+  | _ :: _, [], _, _, h => by simp [zip3] at h
+  | _ :: _, _ :: _, [], _, h => by simp [zip3] at h
+  | a :: as, b :: bs, c :: cs, t, h => by
+    rw [zip3, List.mem_cons] at h
+    rcases h with rfl | h
+    · simp
+    · obtain ⟨h1, h2, h3⟩ := mem_zip3 as bs cs t h
+      exact ⟨List.mem_cons_of_mem _ h1, List.mem_cons_of_mem _ h2, List.mem_cons_of_mem _ h3⟩
+
+theorem playRows_mem {r : PlayRow} (h : r ∈ playRows) :
+    r.cb ∈ Gen.cbPlay ∧ r.sb ∈ Gen.sbPlay ∧ r.pr ∈ Gen.playProbe := by
+  unfold playRows playRowsOf at h
+  obtain ⟨t, ht, rfl⟩ := List.mem_map.mp h
+  obtain ⟨h1, h2, h3⟩ := mem_zip3 _ _ _ t ht
+  exact ⟨(List.mem_filter.mp h1).1, (List.mem_filter.mp h2).1, h3⟩
+
+theorem loginRows_mem {r : LoginRow} (h : r ∈ loginRows) :
+    r.cb ∈ Gen.cbLogin ∧ r.sb ∈ Gen.sbLogin ∧ r.pr ∈ Gen.loginProbe := by
+  unfold loginRows loginRowsOf at h
+  obtain ⟨t, ht, rfl⟩ := List.mem_map.mp h
+  obtain ⟨h1, h2, h3⟩ := mem_zip3 _ _ _ t ht
+  exact ⟨(List.mem_filter.mp h1).1, (List.mem_filter.mp h2).1, h3⟩
+
+theorem lookup_mem {β : Type} : ∀ (l : List (Nat × β)) (k : Nat) (v : β),
+    l.lookup k = some v → (k, v) ∈ l
+  | [], _, _, h => by simp [List.lookup] at h
+  | (a, b) :: l, k, v, h => by
+    rw [List.lookup_cons] at h
+    by_cases hk : k = a
+    · subst hk; simp at h; subst h; simp
+    · have : (k == a) = false := by simpa using hk
+      rw [this] at h
+      exact List.mem_cons_of_mem _ (lookup_mem l k v h)
+
+/-- A profile that knows no "set compression" packet: no well-formed packet is one. -/
+theorem wf_not_setCompression (P : Profile) (h : setCompOf P = none) (p : SrvPkt)
+    (hwf : p.wf P = true) : isSetCompression p = false := by
+  cases p with
+  | other pid name fields =>
+    simp only [SrvPkt.wf, Bool.and_eq_true, beq_iff_eq] at hwf
+    have hm := lookup_mem _ _ _ hwf.2
+    unfold setCompOf at h
+    simp only [Option.map_eq_none_iff] at h
+    have := List.find?_eq_none.mp h _ hm
+    simpa [isSetCompression] using this
+  | _ => rfl
+
+theorem rowOk_facts {r : PlayRow} {P : Profile} (h : rowOk r P = true) :
+    P.cbDistinct = true ∧ P.sbDistinct = true ∧ unshared r P = true ∧ othersDisjoint P = true ∧
+      behaviourOk P r.pr = true ∧ (P.dismount = true → P.newer107 = true) ∧
+      P.teleportConfirmSb = 0 := by
+  simp only [rowOk, Bool.and_eq_true, Bool.or_eq_true, Bool.not_eq_true', beq_iff_eq] at h
+  obtain ⟨⟨⟨⟨⟨⟨h1, h2⟩, h3⟩, h4⟩, h5⟩, h6⟩, h7⟩ := h
+  refine ⟨h1, h2, h3, h4, h5, ?_, h7⟩
+  intro hd
+  rcases h6 with h6 | h6
+  · rw [hd] at h6; cases h6
+  · exact h6
+
+/-- `play_row` for a given profile. -/
+theorem profile_facts {v : Nat} (hv : v ∈ liveTables.supportedProtocols) {P : Profile}
+    (hP : profileOf v = some P) :
+    ∃ r, playRowAt v = some r ∧ r ∈ playRows ∧ r.v = v ∧
+      profileOfRow Gen.cbPlayNames r = some P ∧ rowOk r P = true ∧
+      P.kaLong = decide (rank 339 ≤ rank v) ∧ P.newer107 = decide (rank 107 ≤ rank v) ∧
+      P.dismount = decide (rank 755 ≤ rank v) ∧
+      (setCompOf P).isSome = decide (rank v ≤ rank 47) ∧
+      339 ∈ liveTables.knownProtocols ∧ 107 ∈ liveTables.knownProtocols ∧
+      755 ∈ liveTables.knownProtocols ∧ 47 ∈ liveTables.knownProtocols := by
+  obtain ⟨r, P', h1, h2, h3, h4, rest⟩ := play_row hv
+  have : P' = P := by
+    unfold profileOf at hP
+    rw [h1] at hP
+    simp only [Option.bind_some] at hP
+    rw [h4] at hP
+    exact Option.some.inj hP
+  subst this
+  exact ⟨r, h1, h2, h3, h4, rest⟩
+
+theorem profileOf_total {v : Nat} (hv : v ∈ liveTables.supportedProtocols) :
+    ∃ P, profileOf v = some P := by
+  obtain ⟨r, P, h1, -, -, h4, -⟩ := play_row hv
+  exact ⟨P, by unfold profileOf; rw [h1]; exact h4⟩
+
+theorem login_facts {v : Nat} (hv : v ∈ liveTables.supportedProtocols) {L : LoginProfile}
+    (hL : loginProfileOf v = some L) :
+    ∃ r, loginRowAt v = some r ∧ r ∈ loginRows ∧ r.v = v ∧
+      loginProfileOfRow Gen.cbLoginNames r = some L ∧
+      loginShapeOk L = true ∧ loginBehaviourOk L r.pr = true ∧ loginDistinct r L = true ∧
+      L.plugin = decide (rank 385 ≤ rank v) ∧
+      (L.plugin && L.lsId == 0) = decide (rank 391 ≤ rank v) ∧
+      L.uuidBinary = decide (rank 707 ≤ rank v) ∧
+      385 ∈ liveTables.knownProtocols ∧ 391 ∈ liveTables.knownProtocols ∧
+      707 ∈ liveTables.knownProtocols := by
+  obtain ⟨r, L', h1, h2, h3, h4, rest⟩ := login_row hv
+  have : L' = L := by
+    unfold loginProfileOf at hL
+    rw [h1] at hL
+    simp only [Option.bind_some] at hL
+    rw [h4] at hL
+    exact Option.some.inj hL
+  subst this
+  exact ⟨r, h1, h2, h3, h4, rest⟩
+
+theorem loginProfileOf_total {v : Nat} (hv : v ∈ liveTables.supportedProtocols) :
+    ∃ L, loginProfileOf v = some L := by
+  obtain ⟨r, L, h1, -, -, h4, -⟩ := login_row hv
+  exact ⟨L, by unfold loginProfileOf; rw [h1]; exact h4⟩
+
+theorem supported_757 : 757 ∈ liveTables.supportedProtocols := by decide +kernel
+
+/-- The switch points are known protocol numbers. -/
+theorem bounds_known :
+    339 ∈ liveTables.knownProtocols ∧ 107 ∈ liveTables.knownProtocols ∧
+    755 ∈ liveTables.knownProtocols ∧ 47 ∈ liveTables.knownProtocols ∧
+    385 ∈ liveTables.knownProtocols ∧ 391 ∈ liveTables.knownProtocols ∧
+    707 ∈ liveTables.knownProtocols := by
+  obtain ⟨_, _, -, -, -, -, -, -, -, -, -, a, b, c, d⟩ := play_row supported_757
+  obtain ⟨_, _, -, -, -, -, -, -, -, -, -, -, e, f, g⟩ := login_row supported_757
+  exact ⟨a, b, c, d, e, f, g⟩
+
+/-! ### a concrete session at protocol 757 for the non-vacuity examples -/
+
+/-- `Session.demoSession` (protocol 757: encryption, threshold 8, a plugin request, success; two
+keep-alives and a position-and-look) with the play profile the LIVE tables determine for 757
+instead of the hand-written `PlayWire.p757`. -/
+def demoAt757 : Session.Session :=
+  { Session.demoSession with profile := (profileOf 757).getD PlayWire.p757 }
 
 end PyCraft.VersionProfiles
